@@ -32,6 +32,7 @@ class TCfg:
     threads: int = 2
     N: int = 3
     setup: bool = True
+    twin: bool = False  # reachability twin: the harness ends with check(False), which must come back violated
 
 
 SHAPES = (
@@ -98,10 +99,14 @@ def _snapshot(d: Any) -> Any:
 @watchdog(lambda cfg: "C16" if cfg.mode != "awaits" else "C17")
 def run_threads(cfg: TCfg, c: Ctx) -> Any:
     if cfg.mode == "calls":
-        return _run_calls(cfg, c)
-    if cfg.mode == "build":
-        return _run_build(cfg, c)
-    return _run_awaits(cfg, c)
+        out = _run_calls(cfg, c)
+    elif cfg.mode == "build":
+        out = _run_build(cfg, c)
+    else:
+        out = _run_awaits(cfg, c)
+    if cfg.twin:
+        c.check(False, "reachability twin: the end of the harness is reachable", prop="TWIN")
+    return out
 
 
 # ------------------------------------------------------------------------------------------------ C16a
